@@ -1,14 +1,81 @@
 """Shapes: typed attribute environments of the classes whose methods are
-under contract (derived from the code and its call sites)."""
-from pyvc.contracts import shape
+under contract (derived from the code and its call sites).  Only attributes
+that some proof mentions are declared; reading any other attribute inside a
+function under contract is reported as outside the subset."""
+from pyvc.contracts import shape, Contract
 
 LP = "x:Sort(P),logP:Real,logL:Real,it:Int"
 LP_ROW = f"Row({LP})"
 LP_ARR = f"Struct({LP})"
+
+NS = "nessai/samplers/nestedsampler.py"
+EV = "nessai/evidence.py"
+
+# ---- abstract collaborators -------------------------------------------
+shape("ProposalAbs", {"populated": "Bool", "ns_acceptance": "Real",
+                      "_checked_population": "Bool",
+                      "population_acceptance": "Real", "r": "Real",
+                      "training_count": "Int"},
+      methods={
+          "draw": Contract(
+              "<abstract>", "ProposalAbs.draw",
+              params={"old_param": "Any"},
+              modifies=["self.populated", "self._checked_population",
+                        "self.population_acceptance", "self.r"],
+              returns=LP_ROW, trusted=True,
+              trusted_reason="abstract proposal: returns some live point "
+              "(logP as computed by the proposal; logL 0/NaN-free or the "
+              "model's value); C09 is where proposals are verified"),
+      })
+
+shape("ModelAbs", {"likelihood_evaluations": "Int", "names": "Any"},
+      methods={
+          "evaluate_log_likelihood": Contract(
+              "<abstract>", "ModelAbs.evaluate_log_likelihood",
+              params={"x": LP_ROW},
+              modifies=["self.likelihood_evaluations"],
+              returns="Real", trusted=True,
+              trusted_reason="user likelihood: some real number"),
+      })
+
+# ---- evidence state (fields used by the standard sampler) ---------------
+shape("_NSIntegralState", {
+    "base_nlive": "Int",
+    "track_gradients": "Bool",
+    "expectation": "Str",
+    "logZ": "Real",
+    "oldZ": "Real",
+    "logw": "Real",
+    "info": "List(Real)",
+    "logLs": "List(Real)",
+    "log_vols": "List(Real)",
+    "nlive": "List(Int)",
+    "gradients": "List(Real)",
+})
 
 shape("NestedSampler", {
     "live_points": LP_ARR,
     "nlive": "Int",
     "logLmin": "Real",
     "logLmax": "Real",
+    "state": "Obj(_NSIntegralState)",
+    "nested_samples": f"List({LP_ROW})",
+    "condition": "Real",
+    "tolerance": "Real",
+    "iteration": "Int",
+    "max_iteration": "Int",
+    "block_iteration": "Int",
+    "insertion_indices": "List(Int)",
+    "accepted": "Int",
+    "rejected": "Int",
+    "block_acceptance": "Real",
+    "acceptance_history": "List(Real)",
+    "mean_block_acceptance": "Real",
+    "debug_enabled": "Bool",
+    "log_on_iteration": "Bool",
+    "finalised": "Bool",
+    "initialised": "Bool",
+    "prior_sampling": "Bool",
+    "proposal": "Obj(ProposalAbs)",
+    "model": "Obj(ModelAbs)",
 })
